@@ -66,6 +66,8 @@ func cliMakeSet(rng *rand.Rand, root string, k int, longLines bool) *cliSet {
 	if longLines {
 		s.files["vendor/minified.js"] = append(append([]byte("/*\n"), pick(lic)...), []byte("*/\nvar x="+strings.Repeat("a", 70000)+";\n")...)
 		s.files["vendor/blob_first.txt"] = append([]byte(strings.Repeat("QUJD", 20000)+"\n\n"), pick(lic)...)
+		// a file of several MiB whose license comes last: the whole file is what is classified, whatever its size
+		s.files["vendor/bundle.min.js"] = append(append([]byte("/* Copyright 2019 Bundler */\n"), bytes.Repeat([]byte("var q0=function(a,b){return a+b};q1=q0(1,2);\n"), 110000)...), append([]byte("/*\n"), append(pick(lic), []byte("*/\n")...)...)...)
 	}
 	// two headers in one source file: two adjacent matches of the same kind
 	s.files["src/double.go"] = []byte("// " + strings.Replace(strings.TrimRight(string(cliRead(hdr[0])), "\n"), "\n", "\n// ", -1) + "\n\n// ---\n\n// " +
